@@ -42,6 +42,15 @@ Theorem C09_unlock_failure_keeps_record : forall t th s r b f,
 Proof. exact unlock_failure_keeps_record. Qed.
 Print Assumptions C09_unlock_failure_keeps_record.
 
+(** what is still held after a failed Unlock is recorded by its holder -- every reachable state,
+    every fault plan, Unlock failures included: CleanUpOwnLocks (which unlocks every recorded key
+    at exit) releases everything the process holds; the check observes that nothing is held or
+    recorded after it has run *)
+Theorem C09_held_is_recorded : forall cs st s, reachable cs st s ->
+  forall l t, lks (sh s) l = Some t -> exists th, thread_at s t th /\ recd th = true /\ l = c_lk (cfg th).
+Proof. exact held_is_recorded. Qed.
+Print Assumptions C09_held_is_recorded.
+
 (** consequence for the other instances: as long as no Unlock fails, nobody waits for ever *)
 Theorem C09_others_never_blocked_for_ever : forall cs st es s,
   runs unlock_ok (init_state cs st) es s ->
